@@ -18,6 +18,8 @@ Definition has_named_field (fs : list (bytes * fval)) : bool :=
 Definition wf_view (v : pview) : bool :=
   match v_name v with [] => false | _ => true end
   && has_named_field (v_fields v)
+  && forallb (fun kv => match snd kv with VErr _ => false | _ => true end) (v_fields v)
+     (* every typed accessor of the FieldIterator succeeds (no error, no panic) *)
   && nodup_b (map fst (v_tags v))
   && forallb (fun kv => blen (v_key v) + 4 + blen (fst kv) <=? MaxKeyLength) (v_fields v)
   && time_ok (v_time v).
